@@ -253,10 +253,15 @@ def _evaluate(pid, d, res, results, tier):
     ev_total = 0
     crashes = 0
     n_lease_env = 0
+    n_lease_envT = 0
     for r in results:
         fam_count[r["family"]] = fam_count.get(r["family"], 0) + 1
         ev_total += r["n_events"]
         env = simlib.envset(r)
+        if pid == "C02" and r.get("envt_first") == -1:
+            n_lease_envT += 1
+            if r.get("env_first") != -1:
+                res.tie_broken.append("a real trace lies in the timed environment but outside the untimed one (scenario %s): contradicts lemma envT_env" % r["name"])
         if pid == "C02" and r.get("env_first") == -1:
             # the hypothesis of theorem C02_partial_one_claimant_backed_by_its_record holds on this real trace
             n_lease_env += 1
@@ -314,7 +319,7 @@ def _evaluate(pid, d, res, results, tier):
         "scenarios_in_property_environment": n_applicable,
         "traces_validated_against_impl": len(results),
         "events": ev_total,
-        **({"traces_satisfying_the_lease_theorem_hypothesis": n_lease_env} if pid == "C02" else {}),
+        **({"traces_satisfying_the_lease_theorem_hypothesis": n_lease_env, "traces_in_the_fast_store_environment": n_lease_envT} if pid == "C02" else {}),
         "families": fam_count,
         "crashed_or_hung": crashes,
         "rule": "seeded simulator scenarios of the listed generator families (harness/sim/gen.go) run on the real library under testing/synctest; "
